@@ -1,5 +1,135 @@
+import PsiModel.Queue
+import PsiModel.QueueSpec
 import Drivers.Common
-/-! Stub: replaced by the driver of the `Queue` model. -/
+/-! Line-protocol driver of the `Queue` model.
+
+ops
+  new <fifo|interleaved|random|blockedrandom|grouped|blockedfifo> <keep 0|1> <gsize> <draws> <perms>
+  append <arr|gen> <len> <trials> <delays> <dur> <zeroAt>
+  pop <n> | tick <n> (same through the per-sample spec) | pause <m|none> | resume <m|none>
+every state-changing op answers
+  ok|err <Class>  out=<rle cells> add=<key@k+dur,..> rm=<uid,..> ts=<samples> empty=<0|1> rem=<trials,..> ct=<n> cr=<n>
+Cells whose reference value is exactly 0.0 (listed in zeroAt by the harness) are displayed as Z:
+a display canonicalisation only, the model never sees it.
+-/
 namespace Psi.Driver.Queue
-def main : IO Unit := pure ()
+open Psi.Driver Psi.Queue
+
+structure DState where
+  q : QState := {}
+  zeroAt : List (List Nat) := []
+  dead : Bool := false
+
+def showErr : Err → String
+  | .valueError => "ValueError"
+  | .indexError => "IndexError"
+  | .keyError => "KeyError"
+  | .zeroDivision => "ZeroDivisionError"
+  | .stopIteration => "StopIteration"
+  | .hang => "HANG"
+  | .oracle => "ORACLE-EXHAUSTED"
+  | .fuel => "FUEL"
+
+/-- run-length encoding: `Z<n>` and `W<key>:<j0>+<n>` -/
+def rle (zeroAt : List (List Nat)) (cells : List Cell) : String :=
+  let canon : Cell → Cell := fun c =>
+    match c with
+    | .Z => .Z
+    | .W k j => if ((zeroAt[k]?).getD []).contains j then .Z else .W k j
+  -- segments: (isZ, key, j0, count)
+  let segs : List (Bool × Nat × Nat × Nat) :=
+    cells.foldl (fun acc c =>
+      match canon c, acc with
+      | .Z, (true, k, j, n) :: rest => (true, k, j, n + 1) :: rest
+      | .Z, acc => (true, 0, 0, 1) :: acc
+      | .W k j, (false, k', j0, n) :: rest =>
+        if k = k' ∧ j = j0 + n then (false, k', j0, n + 1) :: rest
+        else (false, k, j, 1) :: (false, k', j0, n) :: rest
+      | .W k j, acc => (false, k, j, 1) :: acc) []
+  let strs := segs.reverse.map fun (z, k, j, n) => if z then s!"Z{n}" else s!"W{k}:{j}+{n}"
+  if strs.isEmpty then "-" else ",".intercalate strs
+
+def showInfos (l : List Info) : String :=
+  if l.isEmpty then "-" else ",".intercalate (l.map fun i => s!"{i.key}@{i.k}+{i.dur}")
+
+def report (tag : String) (zeroAt : List (List Nat)) (old new : QState) (out : List Cell) : String :=
+  let add := new.added.drop old.added.length
+  let rm := new.removed.drop old.removed.length
+  s!"{tag} out={rle zeroAt out} add={showInfos add} rm={showList rm} ts={new.samples} " ++
+  s!"empty={if new.empty then 1 else 0} rem={showList (new.data.map (·.trials))} " ++
+  s!"ct={countTrials new} cr={countRequested new}"
+
+def parsePerms? (s : String) : Option (List (List Nat)) :=
+  (commaList s).mapM fun p => (p.splitOn ":").mapM parseNat?
+
+def parseOptInt? (s : String) : Option (Option Int) :=
+  if s == "none" then some none else (parseInt? s).map some
+
+def mkNew (kind : String) (keep : Nat) (gsize : Nat) (draws : List Nat) (perms : List (List Nat)) :
+    Option QState :=
+  let base : QState := { keep := keep != 0, draws := draws, perms := perms }
+  match kind with
+  | "fifo" => some { base with kind := .fifo }
+  | "interleaved" => some { base with kind := .interleaved }
+  | "random" => some { base with kind := .random }
+  | "blockedrandom" => some { base with kind := .blockedRandom }
+  | "grouped" => some { base with kind := .grouped, gsize := gsize }
+  | "blockedfifo" => some { base with kind := .grouped, gsize := 0, auto := true }
+  | _ => none
+
+def step (d : DState) (ws : List String) : DState × String :=
+  match ws with
+  | ["new", kind, keep, gsize, draws, perms] =>
+    match parseNat? keep, parseNat? gsize, parseNats? draws, parsePerms? perms with
+    | some keep, some gsize, some draws, some perms =>
+      match mkNew kind keep gsize draws perms with
+      | some q => ({ q := q }, "ok")
+      | none => (d, "bad-op")
+    | _, _, _, _ => (d, "bad-op")
+  | ["append", kind, len, trials, delays, dur, zs] =>
+    if d.dead then (d, "dead") else
+    match parseNat? len, parseInt? trials, parseInts? delays, parseInt? dur, parseNats? zs with
+    | some len, some trials, some delays, some dur, some zs =>
+      if len = 0 ∨ (kind != "arr" ∧ kind != "gen") then (d, "bad-op") else
+      let e : Entry := { len := len, gen := kind == "gen", trials := trials, requested := trials,
+                         delays := delays, dpos := 0, dur := dur }
+      let (q, key) := append d.q e
+      ({ d with q := q, zeroAt := d.zeroAt ++ [zs] }, s!"ok {key}")
+    | _, _, _, _, _ => (d, "bad-op")
+  | ["pop", n] =>
+    if d.dead then (d, "dead") else
+    match parseInt? n with
+    | none => (d, "bad-op")
+    | some n =>
+      match popBuffer n.toNat d.q with
+      | .ok (out, q) => ({ d with q := q }, report "ok" d.zeroAt d.q q out)
+      | .error e =>
+        if n ≤ 0 then (d, report s!"err {showErr e}" d.zeroAt d.q d.q [])
+        else ({ d with dead := true }, s!"err {showErr e}")
+  | ["tick", n] =>
+    if d.dead then (d, "dead") else
+    match parseNat? n with
+    | none => (d, "bad-op")
+    | some n =>
+      if n = 0 then (d, report "err ValueError" d.zeroAt d.q d.q []) else
+      match runTicks n d.q with
+      | .ok (out, q) => ({ d with q := q }, report "ok" d.zeroAt d.q q out)
+      | .error e => ({ d with dead := true }, s!"err {showErr e}")
+  | ["pause", m] =>
+    if d.dead then (d, "dead") else
+    match parseOptInt? m with
+    | none => (d, "bad-op")
+    | some m =>
+      let (q, raised) := pause m d.q
+      ({ d with q := q }, report (if raised then "err ValueError" else "ok") d.zeroAt d.q q [])
+  | ["resume", m] =>
+    if d.dead then (d, "dead") else
+    match parseOptInt? m with
+    | none => (d, "bad-op")
+    | some m =>
+      let q := resume m d.q
+      ({ d with q := q }, report "ok" d.zeroAt d.q q [])
+  | _ => (d, "bad-op")
+
+def main : IO Unit := run {} step
 end Psi.Driver.Queue
